@@ -375,9 +375,24 @@ def try_fold(e, env=None, default=None):
     try:
         return fold(e, env)
     except Unknown:
-        return default
+        pass
     except RecursionError:
         return default
+    # a local alias for a constant (`bits = _SCALE_BITS` ... f(x, bits)): inline single-assignment locals and retry
+    if isinstance(e, ast.AST):
+        from .core import single_defs, inline_locals
+
+        fn = getattr(e, "_parent", None)
+        while fn is not None and not isinstance(fn, (ast.FunctionDef, ast.AsyncFunctionDef)):
+            fn = getattr(fn, "_parent", None)
+        if fn is not None:
+            sd = single_defs(fn)
+            if sd and any(isinstance(x, ast.Name) and x.id in sd for x in ast.walk(e)):
+                try:
+                    return fold(inline_locals(fn, e), env if env is not None else _default_env(fn))
+                except (Unknown, RecursionError):
+                    return default
+    return default
 
 
 def module_env(repo, mod):
